@@ -34,8 +34,9 @@ excerpt = rest[:6000]
 os.makedirs(os.path.join(root, 'evidence'), exist_ok=True)
 os.makedirs(os.path.join(root, 'replays'), exist_ok=True)
 viol = origin == 'library'
-ev = {"property_id": prop, "tier": tier, "seed": seed, "level": level, "wall_s": 0,
-      "coverage": {"evaluations": 1, "distinct_nontrivial": 1, "rule": "the monitor process died before it could report what it had covered: the one case counted here is the execution that crashed (see violation_signatures and the replay file)",
+# (level "other": this file does not describe an exploration - the process died before it could count anything)
+ev = {"property_id": prop, "tier": tier, "seed": seed, "level": "other", "wall_s": 0,
+      "coverage": {"explanation": "the monitor process (check level: " + level + ") died before it could report what it had covered; the only thing observed is the crash itself (see violation_signatures and the replay file)",
                    "samples": [{"crash_report": excerpt[:1500]}]},
       "violations": 1 if viol else 0,
       "violation_signatures": [f"{prop}/process-died: {head} (raised by {origin} code)"] if viol else [],
